@@ -479,7 +479,86 @@ def r8_handlers_cannot_fail(ctx, cname, fname):
     return n
 
 
+def r9_no_lock_around_app(ctx, fam):
+    """the listener (and everything it calls while handling a message) must
+    not hold a non-reentrant lock that the manager's public API also takes:
+    handling a message runs application code (disconnect handlers, ack
+    callbacks), which may emit through the same manager - it would wait for
+    the lock its own caller holds, silently, for ever."""
+    m = ctx.model
+    from .common import effects
+    eff = effects(ctx)
+    P = c07.PUBSUB[fam]
+    cls = m.cls(P)
+    locks = set()
+    for g in cls.methods.values():
+        for n in walk_own(g.node):
+            if isinstance(n, ast.Assign) and isinstance(n.value, ast.Call) \
+                    and U(n.value.func).split('.')[-1] in (
+                        'Lock', 'Semaphore', 'BoundedSemaphore'):
+                for t in n.targets:
+                    if isinstance(t, ast.Attribute) and U(t.value) == 'self':
+                        locks.add(t.attr)
+    k = 0
+    for g in cls.methods.values():
+        for n in ast.walk(g.node):
+            held = None
+            body = []
+            if isinstance(n, (ast.With, ast.AsyncWith)):
+                for it in n.items:
+                    t = U(it.context_expr)
+                    if any(t == 'self.' + L for L in locks):
+                        held = t
+                        body = n.body
+            if held is None:
+                continue
+            k += 1
+            app = [c for b in body for c in ast.walk(b)
+                   if isinstance(c, ast.Call) and eff.call_reaches_app(g, c)]
+            ctx.check(not app, '%s.%s' % (P, g.name), 'no application code '
+                      'runs under %s' % held, key='lock-around-app',
+                      reason='%s is a non-reentrant lock held while %s can '
+                      'run application code (handlers, ack callbacks); when '
+                      'that code emits through the manager it waits for the '
+                      'lock its own caller holds and the listener never '
+                      'processes another message' % (
+                          held, U(app[0])[:50] if app else ''),
+                      where=where(g, n))
+        # explicit acquire() ... release() around a region
+        acq = [n for n in walk_own(g.node) if isinstance(n, ast.Call) and
+               isinstance(n.func, ast.Attribute) and
+               n.func.attr == 'acquire' and any(
+                   U(n.func.value) == 'self.' + L for L in locks)]
+        for a in acq:
+            k += 1
+            later = [c for c in walk_own(g.node) if isinstance(c, ast.Call)
+                     and getattr(c, 'lineno', 0) > a.lineno and
+                     eff.call_reaches_app(g, c)]
+            rel = [n for n in walk_own(g.node) if isinstance(n, ast.Call) and
+                   isinstance(n.func, ast.Attribute) and
+                   n.func.attr == 'release' and
+                   U(n.func.value) == U(a.func.value)]
+            end = max([r.lineno for r in rel] + [0])
+            inside = [c for c in later if c.lineno < end]
+            ctx.check(not inside, '%s.%s' % (P, g.name), 'no application '
+                      'code runs between %s.acquire() and release()'
+                      % U(a.func.value), key='lock-around-app',
+                      reason='%s is held (acquire at line %d) while %s can '
+                      'run application code; a nested emit through the '
+                      'manager then waits for ever' % (
+                          U(a.func.value), a.lineno,
+                          U(inside[0])[:50] if inside else ''),
+                      where=where(g, a))
+    if not k:
+        ctx.ok(P, 'the pub/sub manager holds no lock of its own around '
+               'message handling', cls.module.relpath)
+
+
 def run(ctx):
+    ctx.rule('C15.R9', 'no non-reentrant lock is held while application code '
+             'can run (listener / emit self-deadlock)', floor=2)
+    for fam in SA:
+        r9_no_lock_around_app(ctx, fam)
     ctx.rule('C15.R8', 'the handlers that keep the listener / listen loops '
              'alive cannot fail themselves (no possibly-unbound names)',
              floor=6)
